@@ -9,6 +9,10 @@ decides the bookkeeping the property's failure modes live in (harness/C04_*.py):
                                     Parameters / lcs.diff: every layout x every edit -> positional (ETA(i)) result
   5  parsing.parameters_from_blocks / rvs_from_blocks: OMEGA(r,c) / ETA(i) numbering for every block layout;
      triangular_root: z3 integer lemma
+  6  the REAL records (harness/C04_records.py): ThetaRecord.update/remove and OmegaRecord.update/remove on records
+     created from a table of concrete $THETA / $OMEGA / $SIGMA texts, one edit per path, read back by the independent
+     reference reader lib/nmref.py and by pharmpy itself; spelling of everything that was not changed is compared
+     byte for byte.  Defect regions found there are the `finding_*[records]` obligations.
 """
 import os
 import re
@@ -18,11 +22,29 @@ import time
 from vcommon import Run
 from xhair import Ob, replay_file, run_obligations
 
-LCS, UPD, BLK = 'C04_lcs.py', 'C04_update.py', 'C04_blocks.py'
+LCS, UPD, BLK, REC = 'C04_lcs.py', 'C04_update.py', 'C04_blocks.py', 'C04_records.py'
+N_THETA = N_OMEGA = None      # sizes of the layout tables of harness/C04_records.py for this tier (set by _table_sizes)
+REC_FINDINGS = (('theta_repeat_member', 'theta_update'), ('theta_repeat_low_init', 'theta_update'),
+                ('theta_repeat_fix', 'theta_update'), ('theta_fix_inside_bounds', 'theta_update'),
+                ('theta_remove_counts_tokens', 'theta_remove'), ('omega_split_fixed_repeat', 'omega_update'),
+                ('omega_remove_counts_tokens', 'omega_remove'), ('omega_remove_glues_next_record', 'omega_remove'))
+
+
+def _table_sizes(thorough):
+    """number of $THETA / $OMEGA+$SIGMA record texts the harness holds for this tier (read from the harness itself, so
+    that a table that grows is never silently cut by the case split)"""
+    global N_THETA, N_OMEGA
+    os.environ['VH_TIER'] = 'thorough' if thorough else 'quick'
+    try:
+        import C04_records as R
+    finally:
+        del os.environ['VH_TIER']
+    N_THETA, N_OMEGA = len(R.THETA_LAYOUTS), len(R.OMEGA_LAYOUTS)
 
 
 def build(thorough):
     T = 1500 if thorough else 200
+    _table_sizes(thorough)
     obs = []
 
     def ob(name, file, func, env, timeout=T, kind='prop'):
@@ -99,10 +121,26 @@ def build(thorough):
             if thorough:
                 ob(f'{rec.lower()}_blocks[n=4,first={c0}]', BLK, 'blocks_ok',
                    dict(VH_NB=4, VH_RECORD=rec, VH_C0LO=c0, VH_C0HI=c0 + 1))
+    # 6 the real records -----------------------------------------------------------------------------------------------------
+    tier = 'thorough' if thorough else 'quick'
+    nt, no = N_THETA, N_OMEGA
+    for lo in range(0, nt, 3):
+        ob(f'theta_update[records,layouts={lo}..{min(lo + 2, nt - 1)}]', REC, 'theta_update',
+           dict(VH_TIER=tier, VH_TLO=lo, VH_THI=lo + 3))
+    for lo in range(0, nt, 8):
+        ob(f'theta_remove[records,layouts={lo}..{min(lo + 7, nt - 1)}]', REC, 'theta_remove',
+           dict(VH_TIER=tier, VH_TLO=lo, VH_THI=lo + 8))
+    for lo in range(0, no, 3):
+        ob(f'omega_update[records,layouts={lo}..{min(lo + 2, no - 1)}]', REC, 'omega_update',
+           dict(VH_TIER=tier, VH_OLO=lo, VH_OHI=lo + 3))
+    ob(f'omega_remove[records,layouts=0..{no - 1}]', REC, 'omega_remove', dict(VH_TIER=tier))
+    for region, func in REC_FINDINGS:
+        ob(f'finding_{region}[records]', REC, func, dict(VH_TIER=tier, VH_REGION=region))
     # twins --------------------------------------------------------------------------------------------------------------
     for func, file, env in (('diff_ok', LCS, dict(VH_N=3)), ('reorder_ok', LCS, dict(VH_N=3)),
                             ('thetas_ok', UPD, dict(VH_K=2)), ('omegas_ok', UPD, dict(VH_K=2)),
-                            ('blocks_ok', BLK, dict(VH_NB=2))):
+                            ('blocks_ok', BLK, dict(VH_NB=2)), ('theta_update', REC, {}), ('theta_remove', REC, {}),
+                            ('omega_update', REC, {}), ('omega_remove', REC, {})):
         ob(f'{func}__twin', file, func + '__twin', env, timeout=120, kind='twin')
     heavy = ('lcs.diff[len=3,3', 'lcs.diff[len=4,4', 'lcs.diff[len=4,3', 'lcs.diff[len=3,4', 'reorder_diff[len=3', 'reorder_diff[len=4',
              'update_random_variables[k=3', 'update_random_variables[k=4', 'update_random_variables[k=2', 'update_thetas[k=3',
@@ -171,6 +209,9 @@ def main():
         'update_random_variable_records/_validate_eta_names',
         'model.external.nonmem.parsing.parameters_from_blocks/rvs_from_blocks', 'internals.math.triangular_root',
         '(real, concrete per path) pharmpy.model NormalDistribution/JointNormalDistribution/RandomVariables/Parameters',
+        'model.external.nonmem.records.theta_record.ThetaRecord.update/remove/inits/bounds/fixs/comment_names/__len__',
+        'model.external.nonmem.records.omega_record.OmegaRecord.update/remove/parse/__len__',
+        '(real, concrete per path) records.factory.create_record (lark parsers of $THETA/$OMEGA), pharmpy.model.Parameter',
     ]
     run.bounds = dict(
         lcs_diff=f'old, new: symbolic int lists of length <= {4 if thorough else 3} over the alphabet 0..2 (traced '
@@ -188,9 +229,23 @@ def main():
         blocks=f'every sequence of <= {4 if thorough else 3} blocks out of: DIAGONAL item (named/unnamed, FIX or not), '
                f'BLOCK(2), BLOCK(3) (named/unnamed), BLOCK SAME; OMEGA and SIGMA',
         triangular_root='z3: all n >= 1 over exact reals (+ the real function on T_n, n <= 10^4)',
-        outside='text level: ThetaRecord.update/remove, OmegaRecord.update/remove/parse tree surgery, numeric rendering '
-                '(str(float)), SD/CORRELATION/CHOLESKY conversions (numpy), FIX placement, name comments, $ABBR REPLACE, '
-                'create_theta_record/create_omega_single/create_omega_block code generation: replaced by contract stubs; '
+        records=f'real records from {N_THETA} $THETA texts (single value, (low,init), (low,init,up), FIX outside / inside '
+                f'/ after the parentheses, (..)xn repeats first / in the middle / last, several values per record, name '
+                f'comments on continuation lines, odd spellings 0.00 / 10.0 / -.99 / 1E-2, -INF / INF, <= 5 thetas per record) '
+                f'and {N_OMEGA} $OMEGA/$SIGMA texts (diagonal, DIAGONAL(n), BLOCK(2), BLOCK(3) with six different '
+                f'values, FIX on the record / on a value / inside parentheses, (v)xn, SD on values, BLOCK SD CORRELATION / '
+                f'VARIANCE CORRELATION / CHOLESKY, name comments, one value per line, odd spellings); theta_update: per '
+                f'token (or all tokens at once) x {{none, 4 new initial estimates, FIX toggle, 4 lower bounds incl. none, '
+                f'4 upper bounds incl. none / 1000000, 4 pairs of bounds, estimate + FIX, one member only of a repeat}}; '
+                f'theta_remove: every proper subset of the parameter positions of the record; omega_update: per position of '
+                f'the parameter list x {{none, 4 new values (variance / covariance, positive definite), FIX toggle (value / '
+                f'whole block), value + FIX}}; omega_remove: every proper subset of the etas of a diagonal record',
+        outside='at record level (item 6) not in the tables: records with options (NUMBERPOINTS, ABORT), BLOCK SAME / '
+                'VALUES, FIX spelled inside (low,init,up FIX) (refused by pharmpy), (low,init)xn as INPUT (refused by '
+                'pharmpy), `$OMEGA SD 0.3` (option before the values of a diagonal record: refused by pharmpy), two edits '
+                'at once on different tokens other than the same edit on all tokens, non positive definite requests; '
+                'items 3-4 (bookkeeping): the records are contract stubs there, $ABBR REPLACE, '
+                'create_theta_record/create_omega_single/create_omega_block code generation, '
                 'IOV / BLOCK SAME in update_random_variable_records; joining/splitting of blocks other than as '
                 'remove+add of whole distributions; THETA(n) renumbering in the code (C02); reordering of kept thetas '
                 'or etas (outside the edit alphabet; informational: a reorder + change of thetas corrupts values)')
@@ -209,20 +264,29 @@ def main():
         'table indexes are fixed per path by bisection on the symbolic int (z3 decides each branch), then the real function '
         'runs on concrete data with CrossHair opcode tracing suspended (items 3-5); items 1-2 are traced symbolically',
         'CrossHair optional short-circuiting of contract-carrying callees is disabled (callees always executed)',
+        'item 6: parameters handed to record.update are real pharmpy.model.Parameter objects named after the comment names '
+        '(THETA_i / P_i otherwise); the reference reader lib/nmref.parse_theta / parse_omega is the trusted base; omega '
+        'values are compared with relative tolerance 1e-12 (SD / CORRELATION / CHOLESKY go through sqrt and division), '
+        'theta values exactly; the token structure of the OLD record (which child of the parse tree is a value token) is '
+        'taken from pharmpy after checking str(record) == text, the NEW text is judged as plain text',
         'eta <-> omega association is positional (ETA(i) = i-th distribution of the $OMEGA records, $ABBR REPLACE numbers '
         'etas in model order): oracle of item 4 is positional; theta oracle is name keyed (names travel in comments)',
     ]
     run_obligations(run, obs)
     triangular_root_lemma(run)
-    for o in obs[:5] + [x for x in obs if x.name.startswith('finding_')][:2] + obs[-2:]:
+    for o in obs[:4] + [x for x in obs if x.name.startswith('finding_')][:2] + \
+            [x for x in obs if '[records' in x.name][:3] + [x for x in obs if x.name.endswith('[records]')][:2] + obs[-1:]:
         run.sample(dict(obligation=o.name, harness=o.file, func=o.func, env=o.env))
     run.finish(coverage=dict(
         explanation='bounded symbolic execution (CrossHair 0.0.110 / z3) of the real bookkeeping functions; "discharged" = '
                     '"Confirmed over all paths" of the bounded input space; counterexamples are replayed concretely in a '
-                    'fresh interpreter before being reported; triangular_root by a direct z3 query. Mechanism level: the '
-                    'records are contract stubs, so the claim is "given records that honour their contract, the updaters '
+                    'fresh interpreter before being reported; triangular_root by a direct z3 query. Two levels: (items 3-4) '
+                    'the records are contract stubs, so the claim is "given records that honour their contract, the updaters '
                     'hand each record exactly its own parameters and the result read back positionally/by name equals '
-                    'the in-memory model".',
+                    'the in-memory model"; (item 6) the real ThetaRecord / OmegaRecord honour that contract on every layout '
+                    'x edit of the tables: the generated text read by an independent reader equals the requested '
+                    'parameters and untouched text is byte-identical. In item 6 the solver enumerates the table '
+                    'indexes (one path per case); the record code itself runs concretely.',
         checker_cmd='crosshair check --report_all --per_condition_timeout T harness/C04_*.py:LINE ; z3 (triangular_root)'))
 
 
